@@ -11,6 +11,7 @@ var Checks = map[string]Check{
 	"C03": {Fn: CheckC03},
 	"C04": {Fn: CheckC04},
 	"C05": {Fn: CheckC05},
+	"C06": {Fn: CheckC06},
 	"C07": {Fn: CheckC07},
 	"C08": {Fn: CheckC08},
 	"C09": {Fn: CheckC09},
